@@ -140,14 +140,49 @@ fn policy_for(mode: u8) -> lightning_signer::policy::simple_validator::SimplePol
             rules.insert(0, FilterRule::new_error("policy-commitment-version"));
             rules.push(FilterRule { tag: "".into(), is_prefix: true, action: FilterResult::Warn });
         }
+        // the corners of the filter semantics, all of which leave `policy-commitment` an error:
+        // 6: an explicit error rule for the tag *before* a warn rule whose prefix covers it (the first match decides)
+        6 => {
+            rules.insert(0, FilterRule::new_error("policy-commitment-outputs-trimmed"));
+            rules.insert(0, FilterRule::new_error("policy-commitment-version"));
+            rules.insert(0, FilterRule::new_error("policy-commitment"));
+            rules.push(FilterRule { tag: "policy-commit".into(), is_prefix: true, action: FilterResult::Warn });
+        }
+        // 7: an exact warn rule for a proper prefix of the tag, and a warn prefix rule that is longer than the tag
+        //    (it demotes every specific `policy-commitment-…` control, not the tag itself)
+        7 => {
+            rules.insert(0, FilterRule::new_error("policy-commitment-outputs-trimmed"));
+            rules.insert(0, FilterRule::new_error("policy-commitment-version"));
+            rules.push(FilterRule::new_warn("policy-commitmen"));
+            rules.push(FilterRule { tag: "policy-commitment-".into(), is_prefix: true, action: FilterResult::Warn });
+        }
         _ => {}
     }
     p.filter = PolicyFilter { rules };
     p
 }
 
-/// the filter demotes `policy-commitment` (the hypothesis of the "accepts only canon" conjunct fails)
-fn nonstrict(mode: u8) -> bool { matches!(mode & 7, 2 | 5) }
+/// the filter demotes `policy-commitment` (the hypothesis of the "accepts only canon" conjunct fails): the documented
+/// semantics of a filter — the first rule that matches the tag (by prefix or exactly) decides, no rule = error —
+/// evaluated by the harness itself on the rules it installed
+fn nonstrict(mode: u8) -> bool {
+    let rules = policy_for(mode).filter.rules;
+    let tag = "policy-commitment";
+    for r in rules.iter() {
+        let m = if r.is_prefix { tag.len() >= r.tag.len() && &tag[..r.tag.len()] == r.tag.as_str() } else { tag == r.tag.as_str() };
+        if m { return r.action == FilterResult::Warn; }
+    }
+    false
+}
+
+/// the `filter` op line: the rules of the node's policy filter for the model
+fn filter_line(mode: u8) -> String {
+    let mut s = String::from("filter");
+    for r in policy_for(mode).filter.rules.iter() {
+        s += &format!(" {}:{}:{}", if r.is_prefix { "p" } else { "e" }, if r.action == FilterResult::Warn { "w" } else { "e" }, r.tag);
+    }
+    s
+}
 
 fn make_setup(sd: &SetupD) -> ChannelSetup {
     ChannelSetup {
@@ -1065,9 +1100,9 @@ impl Group for C04 {
          scripts go to the real phase 1; a case is non-trivial when phase 2 and phase-1(canon) accept a content with at least one HTLC \
          and at least one mutation is refused"
     }
-    fn budget(&self, tier: Tier) -> usize { if tier == Tier::Quick { 500 } else { 6000 } }
+    fn budget(&self, tier: Tier) -> usize { if tier == Tier::Quick { 700 } else { 6000 } }
     fn model_line(&self, op: &str) -> Option<String> {
-        if op.starts_with("impl ") || op.starts_with("p1raw ") || op == "p1retry" || op.starts_with("htlcraw ") { None } else { Some(op.to_string()) }
+        if op.starts_with("impl ") || op.starts_with("p1raw ") || op == "p1retry" || op == "p2next" || op.starts_with("htlcraw ") { None } else { Some(op.to_string()) }
     }
     fn corpus(&self) -> Vec<Vec<String>> {
         // the repository's own scenario (sign_commitment_tx_with_mutators_setup), static and anchors
@@ -1101,6 +1136,7 @@ impl Group for C04 {
             let line: String = match t[0] {
                 "impl" => { mode = t[1].parse().unwrap(); point = t[2].parse().unwrap(); "ok".into() }
                 "keys" => { saw_keys = true; "ok".into() }
+                "filter" => "ok".into(),
                 "resetup" => {
                     // a second setup_channel / SetupChannel on the ready channel, identical but for one field
                     let sd = cx.sd.clone().unwrap();
@@ -1147,13 +1183,14 @@ impl Group for C04 {
                             // whose enforcement state records the point of the commitment signed last; keys, scripts and
                             // the key the signature must verify under are derived from the point of the request.
                             let delta: u8 = t.get(3).and_then(|x| x.parse().ok()).unwrap_or(0);
-                            let use_kept = delta != 0 && cx.kept.is_some();
+                            // 5th token `kept`: send the request to the node that signed in phase 2 even for the point of this commitment
+                            let use_kept = (delta != 0 || t.get(4) == Some(&"kept")) && cx.kept.is_some();
                             let point = make_test_pubkey(sd.point.wrapping_add(delta));
                             let kt = if delta != 0 {
                                 let holder = if use_kept { cx.kept.as_ref().map(|l| l.holder.clone()) } else { cx.live().ok().map(|l| l.holder.clone()) };
                                 match holder { Some(h) => key_tab(&h, &point), None => kt }
                             } else { kt };
-                            let label = format!("{}{}", t[2], if delta != 0 { if use_kept { "@other-point-after-p2" } else { "@other-point" } } else { "" });
+                            let label = format!("{}{}", t[2], if delta != 0 { if use_kept { "@other-point-after-p2" } else { "@other-point" } } else if use_kept { "@after-p2" } else { "" });
                             let (offered, amount, hash, cltv) = c.htlcs[f.5];
                             let z = ldk_anchors(sd.ctype);
                             let redeem_t = if offered { Tpl::Off { csv: z, rev: 1, k1: 4, k2: 3, hash, hashlen: 20 } }
@@ -1219,6 +1256,63 @@ impl Group for C04 {
                             }
                         }
                         Some(_) => "skip".into(),
+                    }
+                }
+                "p2next" => {
+                    // implementation only: the NEXT commitment (number + 1, per-commitment point id + 1, nearly the same content) on the very
+                    // node that accepted phase 2 for this one, after the counterparty revoked the previous one — two successive
+                    // commitments on one channel: whatever the signer carries over from the first (recorded point, recorded
+                    // content, counters) must not leak into the second.  Oracle and checks as for `p2`, for (number + 1, point + 1).
+                    let sd = cx.sd.clone().unwrap();
+                    let c = cx.c.clone().unwrap();
+                    if cx.kept.is_none() && matches!(cx.p2, Some(Some(_))) {
+                        // the node that signed commitment N went into a `restart`: sign N on a fresh node first
+                        if let Ok(l) = fresh(&sd, &c) {
+                            if let P2Res::Ok(..) = real_p2(&l, &sd, &c) { cx.kept = Some(l); co.tags.insert("p2next:resigned-first".into()); }
+                        }
+                    }
+                    match cx.kept.as_ref() {
+                        Some(live) if c.commit_num + 1 < (1u64 << 48) => {
+                            let sd2 = SetupD { point: sd.point.wrapping_add(1), ..sd.clone() };
+                            // … same HTLCs, the counterparty's balance one satoshi lower (a fee change: no payment is involved)
+                            let c2 = ContentD { commit_num: c.commit_num + 1, to_bc: if c.to_bc > 1000 { c.to_bc - 1 } else { c.to_bc }, ..c.clone() };
+                            let _ = live.node.with_channel(&live.id, |chan| { chan.enforcement_state.set_next_counterparty_revoke_num_for_testing(c.commit_num); Ok(()) });
+                            match ldk_tx(live, &sd2, &c2) {
+                                Err(_) => { co.tags.insert("p2next:no-tx".into()); "skip".into() }
+                                Ok((tx, kt2, obs)) => {
+                                    if let Some(dev) = structure_deviation(&sd2, &c2, &kt2, obs, &tx) {
+                                        co.violations.push(Violation { kind: "canon-structure-differs".into(), desc: format!("next commitment on the same channel: the transaction the signer builds is not the BOLT-3 commitment of the negotiated parameters: {}", dev), at: i });
+                                    }
+                                    let (_stx, _ws, htlc_of) = render_tx(&sd2, &c2, &kt2, &tx);
+                                    let ldk_bytes = cons_serialize(&tx);
+                                    let own = own_canonical_bytes(&sd2, &c2, &kt2, obs);
+                                    match real_p2(live, &sd2, &c2) {
+                                        P2Res::Ok(sig, hsigs) => {
+                                            co.tags.insert("p2next:accept".into());
+                                            if !verify_commit_sig(&kt2, sd.chan_value, &ldk_bytes, &sig) || !own.as_ref().map(|o| verify_commit_sig(&kt2, sd.chan_value, o, &sig)).unwrap_or(true) {
+                                                co.violations.push(Violation { kind: "sig-not-canonical".into(), desc: format!("the phase-2 signature for the NEXT commitment (number {}, per-commitment point id {}) signed on the same channel does not verify against the canonical transaction of that commitment", c2.commit_num, sd2.point), at: i });
+                                            }
+                                            let hf = htlc_tx_fields(&sd2, &c2, &htlc_of);
+                                            if hf.len() != hsigs.len() {
+                                                co.violations.push(Violation { kind: "htlc-sig-invalid".into(), desc: format!("next commitment: {} HTLC signatures for {} HTLC outputs", hsigs.len(), hf.len()), at: i });
+                                            } else {
+                                                for (f, s) in hf.iter().zip(hsigs.iter()) {
+                                                    if !verify_htlc_sig(&sd2, &c2, &kt2, &ldk_bytes, f, s) {
+                                                        co.violations.push(Violation { kind: "htlc-sig-invalid".into(), desc: format!("next commitment on the same channel: the HTLC signature for output {} does not verify, under the HTLC key of that commitment's point, against its HTLC transaction", f.0), at: i });
+                                                        break;
+                                                    }
+                                                }
+                                                if !hf.is_empty() { co.tags.insert("p2next:htlc-sigs-verified".into()); }
+                                            }
+                                            format!("accept {}", hsigs.len())
+                                        }
+                                        P2Res::Err(m) => { co.tags.insert(format!("p2next:reject:{}", classify_err(&m))); "reject".into() }
+                                        P2Res::Panic => { co.tags.insert("p2next:panic".into()); "reject".into() }
+                                    }
+                                }
+                            }
+                        }
+                        _ => { co.tags.insert("p2next:skip".into()); "skip".into() }
                     }
                 }
                 "setup" => {
@@ -1466,7 +1560,7 @@ impl Group for C04 {
 
 fn gen_setup_content(rng: &mut Rng) -> (SetupD, ContentD) {
     let ctype = *rng.pick(&['s', 'z', 's', 'z', 'l', 'a']);
-    let mode = *rng.pick(&[0u8, 0, 0, 1, 1, 2, 3, 4, 5]);
+    let mode = *rng.pick(&[0u8, 0, 0, 1, 1, 2, 3, 4, 5, 6, 7]);
     let mode = if (ctype == 'l' || ctype == 'a') && mode == 0 { if rng.chance(1, 2) { 1 } else { 0 } } else { mode };
     let delay = |rng: &mut Rng, lenient: bool| -> u16 {
         match rng.below(10) {
@@ -1567,6 +1661,7 @@ fn build_case(sd: &SetupD, c: &ContentD, rng: &mut Rng, tier: Tier) -> Option<Ve
     let mut ops = vec![
         format!("setup {} {} {} {} {} {} {} {} {} {} {} {}", sd.ctype, if sd.outbound { 1 } else { 0 }, sd.holder_delay, sd.cp_delay, sd.txid, sd.vout, sd.chan_value, obs, if nonstrict(sd.mode) { 0 } else { 1 }, sd.mode, sd.point, if sd.via { 1 } else { 0 }),
         keys_line(&kt),
+        filter_line(sd.mode),
     ];
     // a quarter of the cases: a second setup of the ready channel, identical or with exactly one field changed
     if rng.chance(1, 4) {
@@ -1701,6 +1796,14 @@ fn build_case(sd: &SetupD, c: &ContentD, rng: &mut Rng, tier: Tier) -> Option<Ve
             ops.push(format!("htlcraw {} none {}", k, d));
             ops.push(format!("htlcraw {} {} {}", k, rng.pick(&muts), d));
         }
+    }
+    // the next commitment on the node that signed this one, then the HTLC transactions of the old and of the new
+    // commitment on that node (the state now records the point of the new one)
+    ops.push("p2next".into());
+    if n_htlc_outs > 0 && sd.ctype != 'a' {
+        let k = rng.below(n_htlc_outs as u64);
+        ops.push(format!("htlcraw {} none 0 kept", k));
+        ops.push(format!("htlcraw {} none 1 kept", k));
     }
     Some(ops)
 }
